@@ -55,6 +55,10 @@ pub fn warmup_ops() -> Vec<Op> {
         Op::new("open_root_key").root(ROOT_IN),
         Op::new("resolve").root(ROOT_IN).path("wl"),
         Op::new("open_subpath").root(ROOT_IN).path("wl").flags(O_RDONLY | O_DIRECTORY),
+        // the kernel backend touches procfs only when re-opening: make sure the global procfs handle exists
+        Op::new("resolve").root(ROOT_IN).path("e").keep("warm-h"),
+        Op::new("reopen").handle("warm-h").flags(O_RDONLY | O_DIRECTORY),
+        Op::new("close_handle").handle("warm-h"),
     ]
 }
 
